@@ -25,7 +25,10 @@ RULE = (
     "all per-index / absolute / relative sub-contexts, ordered paths per detector, the JSON of every detector) "
     "must equal its baseline = the snapshot computed for that program alone in a fresh subprocess with "
     "PYTHONHASHSEED=0; a second fresh subprocess with another hash seed must give byte-identical output; "
-    "contexts are snapshotted before and after the detectors run. Non-trivial = history analyses >= 2 distinct "
+    "contexts are snapshotted before and after the detectors run. Pool programs are decorated with stack-neutral pairs the "
+    "instruction-listing detectors report, run-time-value comparisons, and governed comparisons whose both outcomes continue at the "
+    "next line; one pool in three holds a program with 1024 paths; an outcome that changes when the same case is repeated in the "
+    "same process counts as a violation. Non-trivial = history analyses >= 2 distinct "
     "programs with a repetition and some program has >= 2 subroutines or an intcblock; distinct by (pool, history)."
 )
 ASSUMPTIONS = ["set-valued context fields are compared as sets (sorted); path order and JSON bytes are compared exactly"]
@@ -121,13 +124,26 @@ def decorate(draw, p):
             cmps.append([src, ["I", "txn", [fld]], ["I", "==", []], ["I", "assert", []]])
     # one theme per program: the same listed pair in several blocks (so that one detector has several
     # findings whose order is observable), or run-time-value comparisons
+    # a comparison of a governed field whose both outcomes continue at the same place (`c; bz next; next:`): no
+    # effect on the program, but the analyses evaluate the comparison for an edge that carries both outcomes
+    samefall = []
+    for rd, cs in ((["I", "txn", ["TypeEnum"]], ["pay", "axfer", "appl", "1"]), (["I", "txn", ["OnCompletion"]], ["NoOp", "UpdateApplication", "5"]),
+                   (["I", "global", ["GroupSize"]], ["1", "2"]), (["I", "txn", ["Fee"]], ["1000"])):
+        for c_ in cs:
+            samefall.append([rd, ["I", "int", [c_]]])
+    nfall = [0]
     listing = draw(st.integers(0, 4)) < 3
     primary = draw(st.sampled_from(pads))
     items = []
     n = 0
     for it in p["items"]:
         if it[0] == "I" and len(it) > 3 and it[3].get("s") and n < 8 and draw(st.integers(0, 1)) == 0:
-            if listing:
+            if draw(st.integers(0, 3)) == 0 and nfall[0] < 3:
+                a_, b_ = draw(st.sampled_from(samefall))
+                lab = f"dz{nfall[0]}_{n}"
+                nfall[0] += 1
+                pad = ([a_, b_] if draw(st.booleans()) else [b_, a_]) + [["I", draw(st.sampled_from(["==", "!="])), []], ["I", draw(st.sampled_from(["bz", "bnz"])), [lab]], ["L", lab]]
+            elif listing:
                 pad = primary if draw(st.integers(0, 2)) else draw(st.sampled_from(pads))
             else:
                 pad = draw(st.sampled_from(cmps))
